@@ -63,6 +63,10 @@ type ExportingProcess struct {
 	wg              sync.WaitGroup
 	isClosed        atomic.Bool
 	stopCh          chan struct{}
+	// sendMutex serializes the sequence number update, the creation of the message and the
+	// write to the connection, as SendSet is called by the template refresh goroutine
+	// concurrently with the user of the exporting process.
+	sendMutex sync.Mutex
 }
 
 type ExporterTLSClientConfig struct {
@@ -324,6 +328,9 @@ func (ep *ExportingProcess) NewTemplateID() uint16 {
 // createAndSendIPFIXMsg takes in a set as input, creates the IPFIX message, and sends it out.
 // TODO: This method will change when we support sending multiple sets.
 func (ep *ExportingProcess) createAndSendIPFIXMsg(set entities.Set) (int, error) {
+	// The order of the sequence numbers must be the order of the messages on the connection.
+	ep.sendMutex.Lock()
+	defer ep.sendMutex.Unlock()
 	if set.GetSetType() == entities.Data {
 		ep.seqNumber = ep.seqNumber + set.GetNumberOfRecords()
 	}
